@@ -165,7 +165,45 @@ def anchors():
     assert R.cbc_decrypt(ct, key, iv) == b"hello world" + b"A" * 5
 
 
+def large_enumerate(tier, shard, nshards):
+    from ..runner import shard_iter
+
+    return shard_iter(({"size": n} for n in (65519, 65520, 65535, 65536, 65537, 100000, 1048576 + 5)), shard, nshards)
+
+
+def large_execute(case, stats):
+    """Large plaintexts: round trip vs the reference, a sample of faults, framing of several large packets."""
+    import random as _r
+
+    from dissect.cobaltstrike import c2
+
+    rnd = _r.Random(case["size"])
+    plain, aes, hk = rnd.randbytes(case["size"]), rnd.randbytes(16), rnd.randbytes(16)
+    pkt = lib(c2.encrypt_packet, plain, aes, hk)
+    want_ct = R.cbc_encrypt(R.pad_a(plain), aes, b"abcdefghijklmnop")
+    eq(bytes(pkt.ciphertext) == want_ct, True, "encrypt:ciphertext", f"ciphertext of a {case['size']}-byte plaintext")
+    eq(bytes(pkt.signature), R.sign(want_ct, hk), "encrypt:signature", "signature of a large packet")
+    npad = 16 - case["size"] % 16
+    eq(bytes(lib(c2.decrypt_packet, pkt, aes, hk)) == plain + b"A" * npad, True, "decrypt:roundtrip", f"round trip of a {case['size']}-byte plaintext")
+    ct, sig = bytes(pkt.ciphertext), bytes(pkt.signature)
+    for pos in (0, 1, len(ct) // 2, 65535, 65536, len(ct) - 1):
+        if pos < len(ct):
+            bad = ct[:pos] + bytes([ct[pos] ^ 0x40]) + ct[pos + 1 :]
+            r = lib(c2.decrypt_packet, c2.EncryptedPacket(bad, sig), aes, hk, allow=(ValueError,))
+            check(isinstance(r, Raised), "auth:ct_bit_accepted", f"bit flip at ciphertext offset {pos} of a large packet accepted")
+    for cut in (len(ct) - 16, 65536, 16):
+        if cut >= len(ct):
+            continue
+        r = lib(c2.decrypt_packet, c2.EncryptedPacket(ct[:cut], sig), aes, hk, allow=(ValueError,))
+        check(isinstance(r, Raised), "auth:ct_trunc_accepted", f"large ciphertext truncated to {cut} bytes accepted")
+    stream = pkt.dumps() + lib(c2.encrypt_packet, b"small", aes, hk).dumps() + pkt.dumps()
+    got = lib(lambda: list(c2.ClientC2Data(output=stream).iter_encrypted_packets()))
+    eq([len(g.ciphertext) for g in got], [len(ct), 16, len(ct)], "framing:client_split", "framing of large packets")
+    stats.note(case, True, classes=["large_packet"])
+
+
 SUBS = [
+    Sub("large_packets", large_execute, enumerate=large_enumerate, exhaustive=True),
     Sub("packets_with_faults", packet_execute, strategy=packet_strategy, examples={"quick": 4800, "thorough": 48000}),
     Sub("framing", framing_execute, strategy=framing_strategy, examples={"quick": 3200, "thorough": 64000}),
 ]
